@@ -609,9 +609,16 @@ def signature(trace, v):
     if v['clause'] == 'C17.indep' and 'step' in v:
         # F-C07-3 seen through C17: write(books=model.books) followed by a
         # second finish() on the same object re-reads formerly blank cells
+        # (the object itself, or the object it was copied from before: a copy
+        # made afterwards carries the re-read constants along)
+        line, j = set(), v.get('obj')
+        while j is not None and j not in line:
+            line.add(j)
+            j = trace['objects'][j].get('src') if isinstance(j, int) and \
+                j < len(trace['objects']) else None
         state = 0
         for st in trace['steps'][:v['step']]:
-            if st['do'] == 'op' and st['obj'] == v.get('obj'):
+            if st['do'] == 'op' and st['obj'] in line:
                 if st['op']['op'] == 'write_books':
                     state = 1
                 elif st['op']['op'] == 'finish' and state == 1:
